@@ -10,6 +10,7 @@
 pub use self::delta::{DeltaArcIter, PayloadDelta};
 pub use self::history::{PayloadHistory, SharedHistory};
 pub use self::info::PayloadInfo;
+#[cfg(feature = "verif-hooks")] pub use self::info::PublishInfo;
 pub use self::snapshot::{
     PayloadSnapshot, SnapshotArcAspaIter, SnapshotArcIter,
     SnapshotArcOriginIter, SnapshotArcRouterKeyIter,
